@@ -28,12 +28,13 @@ def main():
     os.makedirs(SCR, exist_ok=True)
     vcopy = os.path.join(SCR, "verif")
     sh("rsync -a --delete --exclude .git --exclude replays --exclude 'evidence' %s/ %s/" % (ROOT, vcopy))
-    ids = sorted(os.listdir(os.path.join(ROOT, "seeded")))
+    SD = sys.argv[sys.argv.index("--dir") + 1] if "--dir" in sys.argv else "seeded"      # "benign": behaviour-preserving rewrites (expected verdict: none)
+    ids = sorted(os.listdir(os.path.join(ROOT, SD)))
     summary = {}
     for sid in ids:
         if only and sid not in only:
             continue
-        d = os.path.join(ROOT, "seeded", sid)
+        d = os.path.join(ROOT, SD, sid)
         if not os.path.exists(os.path.join(d, "patch.diff")):
             continue
         meta = json.load(open(os.path.join(d, "meta.json")))
@@ -56,7 +57,7 @@ def main():
                 out = r.stdout.decode(errors="replace")
                 res["suite"] = "passes" if (r.returncode == 0 and "[  PASSED  ] 293 tests." in out) else "FAILS: " + out[-400:]
                 shutil.rmtree(b, ignore_errors=True)
-            props = ALL if all_props else meta["breaks"] + [p for p in meta.get("also_run", [])]
+            props = ALL if all_props else meta.get("breaks", meta.get("run", [])) + [p for p in meta.get("also_run", [])]
             if obl:
                 ores = {}
                 for p in props:
@@ -81,7 +82,7 @@ def main():
                 if viol:
                     kind = "no-failing-input-found" if all("no-failing-input-found" in v for v in viol) else "failing-input"
                 res["checks"][p] = {"exit": r.returncode, "verdict": kind, "wall_s": round(time.time() - t0, 1)}
-                if viol and not os.path.exists(os.path.join(d, "demo.replay")) or (viol and kind == "failing-input" and p == meta["breaks"][0]):
+                if viol and not os.path.exists(os.path.join(d, "demo.replay")) or (viol and kind == "failing-input" and p == (meta.get("breaks") or [None])[0]):
                     rp = viol[0].split("replay=")[1].split(" ")[0]
                     if os.path.exists(rp):
                         shutil.copy(rp, os.path.join(d, "demo.replay"))
